@@ -111,6 +111,74 @@ run_one(int cfg, uint64_t u, const struct suite *cs, const struct suite *hs, int
         return 0;
 }
 
+/* ---- batches: n items of one suite submitted back to back (lanes fill up, jobs complete inside submit) on every
+ * configuration; per-item status and output fingerprints must agree across configurations */
+#define NB 24
+static struct item *BI[NB];
+static int b_done[NB], b_status[NB];
+static uint64_t b_hash[NB];
+static int b_refbad[NB];
+static int b_n;
+static const char *b_cfgname;
+static void
+nvb_done(struct mmgr *mm, IMB_JOB *job, void *arg)
+{
+        struct item *it = job->user_data;
+        (void) arg;
+        for (int i = 0; i < b_n; i++)
+                if (BI[i] == it) {
+                        b_done[i]++;
+                        b_status[i] = (int) job->status;
+                        b_refbad[i] = job->status == IMB_STATUS_COMPLETED ? item_check(it, job, "C08", mm, b_cfgname) != 0 : 0;
+                        b_hash[i] = item_output_hash(it);
+                        return;
+                }
+}
+static int
+run_batch_cfg(int cfg, uint64_t u, const struct suite *cs, const struct suite *hs, int n, uint64_t *fp, int *refbad)
+{
+        struct mmgr *mm = MM[cfg];
+        struct rng r;
+        sigjmp_buf jb;
+        rng_seed(&r, g_opt.seed * 7877 + u * 5);
+        for (int i = 0; i < n; i++) {
+                struct genopt g;
+                genopt_default(&g);
+                g.slot = 2 + i;
+                g.pl = PL_PLAIN;
+                g.max_len = 200;
+                item_gen(BI[i], cs, hs, &r, &g, mm);
+                item_expect(BI[i]);
+        }
+        memset(b_done, 0, sizeof b_done);
+        b_n = n;
+        b_cfgname = g_cfgs[cfg].name;
+        g_job_done = nvb_done;
+        if (sigsetjmp(jb, 1)) {
+                char key[200];
+                snprintf(key, sizeof key, "C08|%s|fault|%s|%s|batch", g_cfgs[cfg].name, cipher_name(BI[0]->cipher), hash_name(BI[0]->hash));
+                ev_violation("C08", key, "fault while a batch of jobs was processed", NULL);
+                g_job_done = NULL;
+                MM[cfg] = mm_new(cfg);
+                return -1;
+        }
+        g_fault_jmp = &jb;
+        for (int i = 0; i < n; i++) {
+                IMB_JOB *j = mm_get_next_job(mm);
+                item_fill_job(BI[i], j);
+                mm_submit_job(mm, 0, 0);
+        }
+        while (mm_flush_job(mm))
+                ;
+        g_fault_jmp = NULL;
+        g_job_done = NULL;
+        for (int i = 0; i < n; i++) {
+                fp[i] = b_done[i] == 1 ? (b_hash[i] ^ (uint64_t) b_status[i]) : 0xdeadULL + (uint64_t) b_done[i];
+                refbad[i] = b_refbad[i];
+        }
+        return 0;
+}
+
 static void
 mask_models(void)
 {
@@ -207,7 +275,9 @@ mask_models(void)
 int
 eng_nver(void)
 {
-        guard_init(2);
+        guard_init(2 + NB);
+        for (int i = 0; i < NB; i++)
+                BI[i] = item_new();
         IT = item_new();
         IT2 = item_new();
         int ncfg = 0;
@@ -235,6 +305,37 @@ eng_nver(void)
                 else {
                         cs = &g_cipher_suites[rng_below(&r, (uint32_t) g_n_cipher_suites)];
                         hs = &g_hash_suites[rng_below(&r, (uint32_t) g_n_hash_suites)];
+                }
+                if (u % 4 == 1) {
+                        /* batch unit */
+                        int n = 2 + (int) rng_below(&r, NB - 2), firstc = -1;
+                        static uint64_t fp0[NB], fpc[NB];
+                        static int rb0[NB], rbc[NB];
+                        for (int c = 0; c < NCFG; c++) {
+                                if (!MM[c])
+                                        continue;
+                                if (run_batch_cfg(c, u, cs, hs, n, firstc < 0 ? fp0 : fpc, firstc < 0 ? rb0 : rbc))
+                                        continue;
+                                if (firstc < 0) {
+                                        firstc = c;
+                                        continue;
+                                }
+                                for (int i = 0; i < n; i++)
+                                        if (fp0[i] != fpc[i] && !rb0[i] && !rbc[i]) {
+                                                char key[240], det[300];
+                                                snprintf(key, sizeof key, "C08|%s|differs-from|%s|%s|%s|batch-output", g_cfgs[c].name,
+                                                         g_cfgs[firstc].name, cs ? cipher_name(cs->cipher) : "NULL",
+                                                         hs ? hash_name(hs->hash) : (cs && cs->aead ? hash_name(cs->hash) : "NULL"));
+                                                snprintf(det, sizeof det, "job %d of a batch of %d gives different status/output on the two configurations",
+                                                         i, n);
+                                                ev_violation("C08", key, det, item_describe(BI[i]));
+                                                break;
+                                        }
+                        }
+                        cov_count("batch_items", (uint64_t) n);
+                        cov_hit("C08", "batch|%s|%s|n%d", cs ? cipher_name(cs->cipher) : "NULL", hs ? hash_name(hs->hash) : "NULL", n > 16 ? 17 : n);
+                        items++;
+                        continue;
                 }
                 int pidx = rng_below(&r, 3) == 0 ? (int) rng_below(&r, 140) : -1;
                 struct fp f0, f;
